@@ -762,6 +762,15 @@ class _GenState:
             yield from self.query(idx, only="decode")
         elif kind == "encode":
             yield from self.query(idx, only="encode", allow_extra=True)
+        elif kind == "decode_fail" and rng.random() < 0.12:
+            # a pre-v2 atom symbol where it cannot be missed: rejected as it stands, accepted in
+            # compatible mode, and after that to be rejected again
+            old = rng.choice(("[C@@Hexpl]", "[N+expl]", "[NHexpl]", "[=N+expl]", "[CH2expl]", "[O-expl]", "[=C@Hexpl]", "[Siexpl]"))
+            x = rng.choice(("[C]", "[N]", "[C][=C]")) + old + rng.choice(("[O]", "[C][F]", ""))
+            for compat, why in ((False, "fail"), (True, "compat_after_fail"), (False, "plain_after_compat")):
+                op = {"op": "decode", "x": x, "compatible": compat, "attribute": False, "why": why}
+                self.all_calls.append(dict(op))
+                yield op
         elif kind == "decode_fail":
             x = gen_failing_selfies(rng, self.ctx())
             op = {"op": "decode", "x": x, "compatible": rng.random() < 0.15, "attribute": rng.random() < 0.3, "why": "fail"}
@@ -772,6 +781,12 @@ class _GenState:
             if rng.random() < 0.5:   # a later success sharing the novel symbols
                 yield {"op": "decode", "x": x.replace(self._bad_of(x), ""), "compatible": False, "attribute": False,
                        "why": "after_fail"}
+            bad_sym = self._bad_of(x)
+            if ("xpl" in bad_sym or "_" in bad_sym) and not op["compatible"] and len(x) % 3 != 0:
+                # a pre-v2 symbol: rejected as it stands, accepted in compatible mode, and after that
+                # to be rejected again
+                yield {"op": "decode", "x": x, "compatible": True, "attribute": False, "why": "compat_after_fail"}
+                yield {"op": "decode", "x": x, "compatible": False, "attribute": False, "why": "plain_after_compat"}
         elif kind == "encode_fail":
             bad = derive_failing_smiles(rng) if rng.random() < 0.5 else rng.choice(SMILES_BAD)
             yield {"op": "encode", "s": bad, "strict": rng.random() < 0.5,
